@@ -62,6 +62,8 @@ JudgeValue(exp, out, strict) ==
                       ELSE IF Len(exp[2]) # Len(out[2]) \/ Len(exp[3]) # Len(out[3]) THEN "shape"
                       ELSE IF exp[2] = out[2] /\ exp[3] = out[3] THEN "ok" ELSE "value"
     [] te = "none" -> IF to = "none" THEN "ok" ELSE "kind"
+    [] te = "rlenc" -> IF to # te THEN "kind" ELSE IF strict /\ exp[2] # out[2] THEN "dtype" ELSE IF exp[3] # out[3] THEN "shape"
+                       ELSE IF exp = out THEN "ok" ELSE "value"           \* an encoding given by its boundaries and values (integers)
     [] OTHER -> "kind"
 
 Judge(exp, out, strict) ==
